@@ -59,6 +59,16 @@ theorem C25_bridge_sqlite (e : Sql) (start stop : Arg) :
   rcases start with _ | a | x <;> rcases stop with _ | b | y <;>
     simp [sqliteStringSlice, sqliteText, Arg.enc, Arg.sql, Sql.enc, isNone_enc, pure, Except.pure]
 
+/-! ### the driver evaluates exactly the AST it is sent
+
+On every run the engine sends the AST Pony REALLY emitted (nested lists) to the driver, which decodes it with `dec` and runs
+`eval` on the result.  `dec` is total and is the two-sided inverse of `enc`: the typed tree that is evaluated encodes back to
+precisely the list that was sent, and nothing a typed tree can express is lost. -/
+
+theorem C25_dec_sound (v : PyVal) (t : Sql) (h : dec v = some t) : t.enc = v := dec_sound v t h
+
+theorem C25_dec_enc (t : Sql) : dec t.enc = some t := dec_enc t
+
 /-! ### statements -/
 
 
